@@ -112,7 +112,7 @@ async fn run_schedule<TC: Tcfg>(sc: &Scenario, mgr: Mgr, policy: &Policy, st: &m
     vdb.ctl.sched.store(false, Ordering::SeqCst);
     st.schedules += 1;
     st.max_steps = st.max_steps.max(trace.steps.len());
-    let what = format!("schedule {:?} (actors per step: {:?})", policy, trace.steps);
+    let what = format!("schedule {} (actors per step: {:?})", crate::sched::show_policy(policy, trace.steps.len()), trace.steps);
     ensure!(!trace.deadlock, "sched-deadlock", "{what}: actors did not finish (deadlock or livelock)");
     if trace.preemptions > 0 {
         st.interleaved += 1;
